@@ -183,13 +183,13 @@ DiscoverChecks(a, r, o) ==
         DiscoverGivesUpAtTheTimeout |-> ~heard /\ a.timeout_ms >= 0 => Abs(o.elapsed_ms - limit) <= 1]
 
 \* ------------------------------------------------------------------ rig-boot
-\* boot datagrams: <<command, arg1, arg3, bytes of image carried>>; 1 start (arg3 = blocks - 1), 3 block (arg1 =
-\* (words - 1) * 256 + number), 5 end
+\* boot datagrams: <<command, arg1, arg3, bytes of image carried>>; 1 start (arg3 = blocks - 1), 3 block (the low
+\* byte of arg1 = its number; as in Boot.tla the word count in the upper bits is not judged), 5 end (arg1 = 1)
 WholeImageSent(dg) ==
     LET n == Len(dg) - 2 IN
-    /\ n >= 1 /\ dg[1][1] = 1 /\ dg[1][3] = n - 1 /\ dg[Len(dg)][1] = 5
+    /\ n >= 1 /\ dg[1][1] = 1 /\ dg[1][3] = n - 1 /\ dg[Len(dg)][1] = 5 /\ dg[Len(dg)][2] = 1
     /\ \A k \in 1..n : /\ dg[k + 1][1] = 3 /\ dg[k + 1][4] \in 4..1024 /\ dg[k + 1][4] % 4 = 0
-                       /\ dg[k + 1][2] = (dg[k + 1][4] \div 4 - 1) * 256 + (k - 1)
+                       /\ dg[k + 1][2] >= 0 /\ dg[k + 1][2] % 256 = k - 1
                        /\ (k < n => dg[k + 1][4] = 1024)
 BootPhasePredicted(a, o) == IF a.host = "spinn" /\ st.phase = "unbooted" /\ WholeImageSent(o.dgrams) THEN "booted" ELSE st.phase
 BootChecks(a, r, o) ==
